@@ -31,6 +31,16 @@ CHECKS["C12"] = dict(
         "of the format handlers; sentinel bytes and live-allocation counting observe 'untouched beyond prefix' and 'no leaked partial buffer'.",
    note=TB + "Everything below the read loop (translation, cache, format handler) is the oracle parameter; OracleSound: a failing fetch has non-OK status.",
    technique="Lean 4 proof (loop invariant by induction on fuel) + differential correspondence", design="§6 C12")
+CHECKS["C02"] = dict(
+   text="Lean proof that the model of addrxlat_walk (first-step index split, per-level base+idx*elemsz, per-format entry handlers, huge-page "
+        "folding) equals an independent architectural specification ('output address || low VA bits', per-format entry decoders) for x86-64 4/5-level, "
+        "IA-32 with and without PAE (PSE-36), RISC-V Sv39/48/57 and PFN32/64 tables with arbitrary field lists, for every memory, root, PTE mask and "
+        "address, including non-canonical addresses and error classes; linear/lookup/memory-array methods equal their definitions; launch+single steps "
+        "equals the one-call walk for every method. Tie: differential run of the real addrxlat_walk/launch/step over a pseudo-random pure-function "
+        "memory with single-bit flips of every PTE read at every level, both byte orders; the implementation is also compared with the specification directly.",
+   note=TB + "Architecture specifications are my reading of the manuals (reserved bits ignored as the library does). AArch64, Arm, s390x and ppc64 handlers: "
+        "being modelled (separate files), until then covered by the repository's own tests only. Custom methods are outside the model.",
+   technique="Lean 4 proof (walk = architectural spec, per format) + differential correspondence", design="§6 C02")
 NOT_YET = {}
 
 def main():
